@@ -238,13 +238,16 @@ func (store *Store) Truncate() error {
 	}
 
 	// Add command to select the current database at the top of the file.
-	_, err := store.rw.Write([]byte(
-		fmt.Sprintf("*2\r\n$6\r\nSELECT\r\n$1\r\n%s\r\n", strconv.Itoa(store.currentDatabase))))
-	if err != nil {
-		return fmt.Errorf("truncate: log select error: %+v", err)
+	// A store that has not logged a command yet has no current database to select.
+	if store.currentDatabase >= 0 {
+		db := strconv.Itoa(store.currentDatabase)
+		_, err := store.rw.Write([]byte(fmt.Sprintf("*2\r\n$6\r\nSELECT\r\n$%d\r\n%s\r\n", len(db), db)))
+		if err != nil {
+			return fmt.Errorf("truncate: log select error: %+v", err)
+		}
 	}
 	// Immediately sync the file.
-	if err = store.rw.Sync(); err != nil {
+	if err := store.rw.Sync(); err != nil {
 		return fmt.Errorf("truncate: sync error: %+v", err)
 	}
 
